@@ -116,7 +116,8 @@ theorem isometry_invariant_contacts {g : Motion Rat} (hg : g.IsRigid) (t : List 
   have hid : Keeps (id : Atom → Atom) :=
     ⟨Function.injective_id, fun _ => rfl, fun _ => rfl, fun _ => rfl, fun _ => rfl, fun _ _ _ => rfl, fun _ _ _ => rfl⟩
   have := fnat_map hid (keeps_moveAtom hg) rfl c ref dec
-  simpa using this
+  rw [List.map_id] at this
+  exact this
 
 /-! ### 3. serial number, occupancy, B-factor, element -/
 
@@ -131,12 +132,7 @@ theorem ignores_serial_occ_temp_element_text (l l' : Str) (h : LineSameButIgnore
 example : LineSameButIgnored
     "ATOM      1  N   ALA A   1       0.000   0.000   0.000  1.00  0.00           N  ".toList
     "ATOM  98765  N   ALA A   1       0.000   0.000   0.000  0.25 77.10          FE  ".toList := by
-  refine ⟨by decide, ?_⟩
-  intro i hi
-  by_cases h80 : i < 80
-  · interval_cases i <;> first | (exfalso; revert hi; decide) | rfl
-  · have : 80 ≤ i := by omega
-    simp [List.getElem?_eq_none, this]
+  exact lineSame_of_check (by decide) (by decide)
 
 /-- **The tables and the routines.**  When decoy and reference change in serial numbers, occupancies, B-factors and
     element fields only (record for record), `get_contact_atoms`, the residue check and all four routines return exactly
@@ -155,8 +151,6 @@ theorem ignores_serial_occ_temp_element (dec dec' ref ref' : List Atom) (dl dl' 
     Spec.C08.fnat c ref' dec' = Spec.C08.fnat c ref dec ∧ Spec.C08.clashCount c dec' = Spec.C08.clashCount c dec := by
   have sd := map_strip_of_same hd
   have sr := map_strip_of_same hr
-  have pd := rawPts_ignores hdl
-  have pr := rawPts_ignores hrl
   refine ⟨?_, ?_, ?_, ?_, ?_, ?_, ?_, ?_, ?_⟩
   · rw [← contactRun_map strip_id a (strip_cutoff a.cutoff) ref', ← contactRun_map strip_id a (strip_cutoff a.cutoff) ref, sr]
   · rw [← checkResidues_map strip_id strip_id dec' ref', ← checkResidues_map strip_id strip_id dec ref, sd, sr]
@@ -168,32 +162,9 @@ theorem ignores_serial_occ_temp_element (dec dec' ref ref' : List Atom) (dl dl' 
     have h2 := lrmsdSql_map strip_id strip_id strip_moves strip_moves enforce dec ref
     rw [mapOutcome_id] at h1 h2
     rw [← h1, ← h2, sd, sr]
-  · -- the raw readings of the changed files are those of the original files; the tables go through `strip`
-    have key : ∀ (A B : List Str) (D R : List Atom),
-        irmsdFast A B (.ok (D.map strip)) (.ok (R.map strip)) src c check enforce = irmsdFast A B (.ok D) (.ok R) src c check enforce := by
-      intro A B D R
-      cases hA : rawPts A with
-      | error e => exact irmsdFast_raw_error_congr hA _ _ _ _ _ _ _ _ _
-      | ok PA => exact irmsdFast_strip A B D R src c check enforce
-    exact irmsdFast_ignores pd pr sd sr src c check enforce
-  · exact lrmsdFast_ignores pd pr sd sr src check enforce
-  · unfold interfacePairs
-    have h1 := commonBackbone_map (fD := strip) (fR := strip) (kf := id) (pd := id) (pr := id) (fun _ _ h => h)
-      (fun _ => rfl) (fun _ => rfl) (fun _ => rfl) (fun _ => rfl) (fun _ => rfl) dec' ref'
-      (fun r => atInterface ref' c r.chainID r.resSeq) (fun r => atInterface (ref'.map strip) c r.chainID r.resSeq)
-      (fun r _ => by
-        have := atInterface_map (f := strip) 0 (fun _ => rfl) (fun a => by simp [strip]) c (fun _ _ => rfl) ref' r.chainID r.resSeq
-        simpa [strip] using this)
-    have h2 := commonBackbone_map (fD := strip) (fR := strip) (kf := id) (pd := id) (pr := id) (fun _ _ h => h)
-      (fun _ => rfl) (fun _ => rfl) (fun _ => rfl) (fun _ => rfl) (fun _ => rfl) dec ref
-      (fun r => atInterface ref c r.chainID r.resSeq) (fun r => atInterface (ref.map strip) c r.chainID r.resSeq)
-      (fun r _ => by
-        have := atInterface_map (f := strip) 0 (fun _ => rfl) (fun a => by simp [strip]) c (fun _ _ => rfl) ref r.chainID r.resSeq
-        simpa [strip] using this)
-    have e : ∀ l : List IdPair, l.map (fun p => (id p.1, id p.2.1, id p.2.2)) = l := fun l => by
-      conv_rhs => rw [← List.map_id l]
-    rw [e] at h1 h2
-    rw [← h1, ← h2, sd, sr]
+  · exact irmsdFast_ignores hdl hrl sd sr src c check enforce
+  · exact lrmsdFast_ignores hdl hrl sd sr src check enforce
+  · exact (pairs_ignores sd sr c).1
   · rw [← fnat_map keeps_strip keeps_strip rfl c ref' dec', ← fnat_map keeps_strip keeps_strip rfl c ref dec, sd, sr]
   · rw [← clashCount_map keeps_strip c dec', ← clashCount_map keeps_strip c dec, sd]
 
@@ -223,7 +194,8 @@ theorem hydrogens_ignored (c : Rat) (ref ref' dec dec' : List Atom)
   ⟨fnat_hydrogens c (by simpa [HydrogensAdded, heavy_eq] using hr) (by simpa [HydrogensAdded, heavy_eq] using hd),
    clashCount_hydrogens c (by simpa [HydrogensAdded, heavy_eq] using hd)⟩
 
-example : HydrogensAdded Demo.ref (Demo.mkAtom 77 "HA" "ALA" "A" 1 1 1 1 1 0 "H" :: Demo.ref) := by decide
+example : HydrogensAdded Demo.ref (Demo.mkAtom 77 "HA" "ALA" "A" 1 1 1 1 1 0 "H" :: Demo.ref) := by
+  unfold HydrogensAdded; decide +kernel
 
 /-! ### 6. reordering the records: the same value or an explicit error -/
 
@@ -295,7 +267,7 @@ theorem permutation_same_or_error (dl rl dl' rl' : List Str) (dec ref dec' ref' 
       exact ⟨p4.2.1.trans b.2.2.2.1.symm, p4.2.2.trans b.2.2.2.2.symm⟩
     · rename_i e heq; rw [heq]; trivial
 
-/-- non-vacuity: the demo decoy is a reordering of a table in the reference's record order -/
-example : Demo.dec.Perm [Demo.dec[3]!, Demo.dec[2]!, Demo.dec[1]!, Demo.dec[0]!] := by decide
+/-- non-vacuity: a reordering of the demo decoy (hypotheses `Consistent`, `RawAgrees`: examples of Props/C07.lean) -/
+example : Demo.dec.reverse.Perm Demo.dec := List.reverse_perm _
 
 end Props.C11
